@@ -1442,6 +1442,7 @@ def run_preferred(spec, rec, rng, pintload, pint, o, names):
         else:
             plist, pname = ((si, "si6"), (si2, "si7"), (imp, "imperial6"))[mode]
             pdesc = pname
+            fixed_units = [dict(u._units.items()) for u in plist]
             if rng.random() < 0.7:
                 units = {n: rng.choice((-2, -1, 1, 1, 2)) for n in rng.sample(common, rng.randint(1, 3))}
             else:
@@ -1449,6 +1450,16 @@ def run_preferred(spec, rec, rng, pintload, pint, o, names):
         x, dec = gen_mag(rng, rng.choice(kinds))
         q = mon.mk(x, units)
         shape = {}
+        if pname != "random":
+            # the same find_simple shortcut (T5) is reachable with the fixed lists: pascal has the
+            # dimension set {length, mass, time} of many mechanical quantities
+            dq = o.expand(units)[1]
+            for d in fixed_units:
+                dp = o.expand(d)[1]
+                if dq and dp.keys() == dq.keys():
+                    k0 = next(iter(dq))
+                    if any(dp[k] * dq[k0] != dq[k] * dp[k0] for k in dq):
+                        shape = {"shape": "preferred-unit-with-same-dimension-set-but-not-proportional"}
         if pname == "random":
             shape = {"shape": "random-preferred-list"}
             dq = o.expand(units)[1]
